@@ -704,3 +704,68 @@ func FuzzC01(f *testing.F) {
 	ev := evid.New("C01", "FuzzC01")
 	f.Fuzz(rapid.MakeFuzz(c01prop(ev)))
 }
+
+// FuzzC01Decode: coverage-guided differential decoding.  Any byte string the strict
+// reference parser accepts as a transaction / path / info fork must decode to the same
+// value in mobius (and re-encode to the same bytes).
+func FuzzC01Decode(f *testing.F) {
+	f.Add(hlref.Tran{Type: 107, ID: 1, Fields: []hlref.Field{hlref.F(105, []byte("abc")), hlref.F(106, nil)}}.Encode())
+	f.Add(hlref.EncodePath([][]byte{[]byte("a"), []byte("bb")}))
+	f.Add(hlref.InfoFork{Name: []byte("n"), Comment: []byte("c")}.Encode())
+	f.Add(hlref.EncodeResume([]hlref.ForkOffset{{Fork: [4]byte{'D', 'A', 'T', 'A'}, Offset: 7}}))
+	f.Fuzz(func(t *testing.T, data []byte) {
+		if len(data) > 70000 {
+			return
+		}
+		if rt, n, err := hlref.DecodeTran(data); err == nil && n == len(data) {
+			var g hotline.Transaction
+			if _, err := g.Write(data); err != nil {
+				t.Fatalf("reference accepts the transaction, mobius rejects it: %v (%x)", err, data)
+			}
+			if len(g.Fields) != len(rt.Fields) || int(binary.BigEndian.Uint16(g.Type[:])) != rt.Type || binary.BigEndian.Uint32(g.ID[:]) != rt.ID {
+				t.Fatalf("decoded transaction differs from the reference: %d fields vs %d", len(g.Fields), len(rt.Fields))
+			}
+			for i := range g.Fields {
+				if int(binary.BigEndian.Uint16(g.Fields[i].Type[:])) != rt.Fields[i].ID || !bytes.Equal(g.Fields[i].Data, rt.Fields[i].Data) {
+					t.Fatalf("field %d differs from the reference", i)
+				}
+			}
+			b, _ := io.ReadAll(&g)
+			if !bytes.Equal(b, data) {
+				t.Fatalf("decode -> encode is not the identity at byte %d", firstDiff(b, data))
+			}
+		}
+		if items, err := hlref.DecodePath(data); err == nil {
+			var fp hotline.FilePath
+			if _, err := fp.Write(data); err != nil {
+				t.Fatalf("reference accepts the path, mobius rejects it: %v (%x)", err, data)
+			}
+			if len(fp.Items) != len(items) {
+				t.Fatalf("path decoded into %d items, reference %d (%x)", len(fp.Items), len(items), data)
+			}
+			for i := range items {
+				if !bytes.Equal(fp.Items[i].Name, items[i]) {
+					t.Fatalf("path item %d differs (%x)", i, data)
+				}
+			}
+		}
+		if inf, err := hlref.DecodeInfoFork(data); err == nil {
+			var g hotline.FlatFileInformationFork
+			if err := g.UnmarshalBinary(data); err != nil {
+				t.Fatalf("reference accepts the info fork, mobius rejects it: %v", err)
+			}
+			if !bytes.Equal(g.Name, inf.Name) || !bytes.Equal(g.Comment, inf.Comment) || g.TypeSignature != inf.Type {
+				t.Fatalf("info fork decoded differently (%x)", data)
+			}
+		}
+		if forks, err := hlref.DecodeResume(data); err == nil {
+			var g hotline.FileResumeData
+			if err := g.UnmarshalBinary(data); err != nil {
+				t.Fatalf("reference accepts the resume data, mobius rejects it: %v", err)
+			}
+			if len(forks) < 256 && len(g.ForkInfoList) != len(forks) {
+				t.Fatalf("resume data decoded into %d forks, reference %d", len(g.ForkInfoList), len(forks))
+			}
+		}
+	})
+}
